@@ -85,6 +85,9 @@ def record_and_validate(ctx, prop, n=0, tier=None, parts=None, exe=None):
     trace = os.path.join(ctx.work, 'trace-%s-%d.ndjson' % (prop, len(os.listdir(ctx.work))))
     kw = {'in': trace, 'aux': json.dumps(tabs), 'prop': prop, 'n': n}
     s = ctx.harness('record', exe=exe, tier=tier, env={'GORACE': 'exitcode=0 halt_on_error=0'}, **kw)
+    if s.get('violations'):
+        # the recorder itself stopped with a finding (a library call that never returned): the trace is incomplete
+        return list(s['violations']), dict(events=0, files=0, samples=[], stderr=s.get('_stderr', ''))
     files = split_file(trace, parts or core.NCPU)
     with ThreadPoolExecutor(max_workers=core.NCPU) as ex:
         res = list(ex.map(lambda a: validate_one(ctx, a[1], a[0]), enumerate(files)))
